@@ -32,6 +32,9 @@ NS_DICTS = [
     {"http://ex.org/": "", "http://ex.org/ns/": "weso-s", "http://other.org/v#": "shapes", "https://data.example/": "w-shapes"},
     {"http://ex.org/ns/": "ns", "http://other.org/v#": "v", "https://data.example/": "shapes"},
     {"http://weso.es/shapes/": "mine", "http://ex.org/": "ex"},
+    # namespaces given without their final separator (a local part would begin with '/' or '#'), or ending inside a local name
+    {"http://ex.org/ns": "nsx", "http://other.org/v": "vx", "http://ex.org": "exx", "http://www.w3.org/1999/02/22-rdf-syntax-ns": "rdfx"},
+    {"http://ex.org/n": "nn", "http://ex.org/ns/p": "pp", "http://ex.org/C": "cc", "http://www.w3.org/2001/XMLSchema": "xs"},
 ]
 TTL_PREFIXES = [{"": "http://ex.org/"}, {"ex": "http://ex.org/", "": "http://ex.org/ns/"}, {"weso-s": "http://other.org/v#", "ex": "http://ex.org/"}]
 
